@@ -63,6 +63,45 @@ def make_pairs(rng, sc, frac):
     sc.reads = out
 
 
+def repeat_reference(r2):
+    """a contig with a duplicated segment (segmental duplication / paralogous sequence variants): 2-4 copies of a
+    50-90 bp unit separated by unique spacers; each copy carries one variant at the SAME offset, so the +-10 bp
+    re-alignment windows of different variants are identical up to the variant itself, with different (also swapped)
+    allele meaning; plus ordinary variants in the unique parts. Legal input of C02 ('all references')."""
+    unit = sim.random_seq(r2, r2.randrange(50, 90))
+    off = r2.randrange(15, len(unit) - 15)
+    ncopies = r2.choice([2, 2, 3, 4])
+    seq = sim.random_seq(r2, r2.randrange(40, 80))
+    variants = []
+    kind = r2.choice(["snv", "snv", "del", "ins"])
+    bases = r2.sample("ACGT", 4)
+    for k in range(ncopies):
+        u = list(unit)
+        start = len(seq)
+        if kind == "snv":
+            refb, altb = (bases[0], bases[1]) if k % 2 == 0 else (bases[1], bases[0])   # swapped meaning in odd copies
+            u[off] = refb
+            variants.append(sim.Variant("chr1", start + off, refb, altb, "snv"))
+            seq += "".join(u)
+        else:
+            seq += "".join(u)
+            v = sim.make_variant(r2, "chr1", seq + "ACGTACGTAC", start + off, kind)
+            if v is not None:
+                variants.append(v)
+        seq += sim.random_seq(r2, r2.randrange(25, 60))
+        # an ordinary variant in the unique spacer now and then
+    seq += sim.random_seq(r2, r2.randrange(40, 80))
+    # add a few ordinary SNVs in unique sequence, well separated from the others
+    taken = [(v.pos - 30, v.pos + len(v.ref) + 30) for v in variants]
+    for _ in range(r2.randrange(0, 4)):
+        p = r2.randrange(30, len(seq) - 30)
+        if all(not (a <= p <= b) for a, b in taken):
+            variants.append(sim.make_variant(r2, "chr1", seq, p, "snv"))
+            taken.append((p - 30, p + 31))
+    variants.sort(key=lambda v: v.pos)
+    return {"chr1": (seq, variants)}
+
+
 def run(ctx):
     rng = ctx.rng
     wd = ctx.workdir()
@@ -81,9 +120,12 @@ def run(ctx):
             nsamp = r2.choice([1, 1, 2, 3])
             kinds = r2.choice([("snv",), ("snv", "ins", "del", "mnp"), ("snv", "ins", "del", "mnp"), ("ins", "del"), ("mnp", "snv")])
             deep = r2.random() < 0.3
+            repeats = r2.random() < 0.3
             sc = sim.Scenario(r2, n_contigs=r2.choice([1, 1, 2]), contig_len=(700, 1600), n_variants=(3, 14), kinds=kinds,
                               samples=tuple(f"S{i + 1}" for i in range(nsamp)), depth=((18, 40) if deep else (2, 10)),
-                              read_len=(r2.choice([60, 100, 150]), r2.choice([200, 400, 700])))
+                              read_len=(r2.choice([60, 100, 150]), r2.choice([200, 400, 700])),
+                              het_prob=(0.95 if repeats else 0.8), given=(repeat_reference(r2) if repeats else None))
+            ctx.dist("reference", "segmental-duplication" if repeats else "random")
             make_pairs(r2, sc, r2.choice([0.0, 0.0, 0.3]))
             d = os.path.join(wd, "run")
             shutil.rmtree(d, ignore_errors=True)
